@@ -251,6 +251,32 @@ def scalar_alphabet(tier):
     return uniq(le(x) for x in v)
 
 
+def base_scalar_alphabet(tier):
+    """Scalars used for the fixed-base multiplications only (signed radix-16 recoding / window carries): every pair of adjacent 32-bit words
+    (and, thorough, 64-bit words) drawn from the nibble-carry alphabet - digits 7/8 are where the signed recoding carries, 0xf.. where a
+    carry ripples - on a zero and on a pseudo-random background, plus every single-byte position of 0x77/0x78/0x87/0x88/0xf8 rows."""
+    words = [0x77777777, 0x77777778, 0x88888888, 0x87777777, 0xffffffff, 0x78888888, 0x00000008, 0xf7777777]
+    bg = [0, int.from_bytes(pat("R1", 32, 777), "little")]
+    v = []
+    for i in range(1, 8):
+        for hi in words:
+            for lo in words:
+                for b in bg:
+                    x = (b & ~(((1 << 64) - 1) << (32 * (i - 1)))) | (lo << (32 * (i - 1))) | (hi << (32 * i))
+                    v.append(x & ((1 << 256) - 1))
+    for fill in (0x77, 0x78, 0x87, 0x88, 0xf8, 0x7f, 0x80):
+        v.append(int.from_bytes(bytes([fill]) * 32, "little"))
+        for j in range(32):
+            v.append(int.from_bytes(bytes([0x77] * j + [fill] + [0x77] * (31 - j)), "little"))
+    if tier != "quick":
+        w64 = [0x7777777777777777, 0x7777777777777778, 0x8888888888888888, 0xffffffffffffffff, 0x8777777777777777]
+        for i in range(1, 4):
+            for hi in w64:
+                for lo in w64:
+                    v.append((lo << (64 * (i - 1))) | (hi << (64 * i)))
+    return uniq(le(x) for x in v)
+
+
 def scalar64_alphabet(tier, S):
     v = [int.from_bytes(s, "little") for s in S]
     v += [x << 256 for x in v[:24]]
@@ -376,6 +402,7 @@ def build_plan(tier):
     E, ecore = point_alphabet(tier)
     S = scalar_alphabet(tier)
     S64 = scalar64_alphabet(tier, S)
+    SB = [x for x in base_scalar_alphabet(tier) if x not in set(S)]
     R, rcls, rcore, coset_checks = ristretto_alphabet(tier, E)
     U32 = uniform32_alphabet(tier, E, S)
     U64 = uniform64_alphabet(tier, S64)
@@ -397,6 +424,8 @@ def build_plan(tier):
                 jobs.append(("smul", epts[i], S)); tags.append(("smul", i))
         for ch in _chunks(list(range(len(S))), 8):
             jobs.append(("base", [S[i] for i in ch])); tags.append(("base", ch))
+        for ch in _chunks(list(range(len(SB))), 8):
+            jobs.append(("base", [SB[i] for i in ch])); tags.append(("baseB", ch))
         for i, p in enumerate(rpts):
             if p is not None:
                 jobs.append(("raddsub", p, [rpts[j] for j in rcols_ok])); tags.append(("raddsub", i))
@@ -418,6 +447,7 @@ def build_plan(tier):
         outs = [None] * len(jobs)
         for i, o in zip(order, outs_sorted):
             outs[i] = o
+    baseB = [None] * len(SB)
     addsub = {}; smul = {}; base = [None] * len(S); raddsub = {}; rsmul = {}
     u32 = [None] * len(U32); u64 = [None] * len(U64); h2c = {}
     for (kind, ref), o in zip(tags, outs):
@@ -427,6 +457,8 @@ def build_plan(tier):
             smul[ref] = o
         elif kind == "base":
             for i, v in zip(ref, o): base[i] = v
+        elif kind == "baseB":
+            for i, v in zip(ref, o): baseB[i] = v
         elif kind == "raddsub":
             for j, v in zip(rcols_ok, o): raddsub[(ref, j)] = v
         elif kind == "rsmul":
@@ -437,8 +469,8 @@ def build_plan(tier):
             for i, v in zip(ref, o): u64[i] = v
         elif kind == "h2c":
             for i, v in zip(ref, o): h2c[hcases[i]] = v
-    return {"tier": tier, "E": E, "einfo": [(c, v, p is not None) for c, v, p in einfo], "ecols": ecols, "addsub": addsub, "smul": smul, "base": base,
-            "S": S, "S64": S64, "R": R, "rcls": rcls, "rcols": rcols, "raddsub": raddsub, "rsmul": rsmul, "U32": U32, "u32": u32, "U64": U64, "u64": u64,
+    return {"tier": tier, "E": E, "einfo": [(c, v, p is not None) for c, v, p in einfo], "ecols": ecols, "addsub": addsub, "smul": smul, "base": base + baseB,
+            "S": S, "SB": SB, "S64": S64, "R": R, "rcls": rcls, "rcols": rcols, "raddsub": raddsub, "rsmul": rsmul, "U32": U32, "u32": u32, "U64": U64, "u64": u64,
             "ctxs": ctxs, "msgs": msgs, "h2c": h2c, "coset_checks": coset_checks, "struct": structured_point_outputs()}
 
 
@@ -576,7 +608,7 @@ def _backend_worker(args):
                     st["nt"] += 1
                     if r != 0 or q.raw != want:
                         fail(name, "wrong-result", rest, "ret %d got %s want %s" % (r, q.raw.hex(), want.hex()))
-    for si, s in enumerate(S):
+    for si, s in enumerate(S + plan["SB"]):
         for name, fn, k in (("crypto_scalarmult_ed25519_base", lib.crypto_scalarmult_ed25519_base, 0), ("crypto_scalarmult_ed25519_base_noclamp", lib.crypto_scalarmult_ed25519_base_noclamp, 1)):
             r = fn(q, s)
             st["n"] += 1
@@ -629,7 +661,7 @@ def _backend_worker(args):
                 st["nt"] += 1
                 if r != 0 or q.raw != want:
                     fail("crypto_scalarmult_ristretto255", "wrong-result", rest, "ret %d got %s want %s" % (r, q.raw.hex(), want.hex()))
-    for si, s in enumerate(S):
+    for si, s in enumerate(S + plan["SB"]):
         r = lib.crypto_scalarmult_ristretto255_base(q, s)
         st["n"] += 1
         want = plan["base"][si][2]
@@ -819,7 +851,7 @@ def main(tier):
         "crypto_core_ristretto255_from_string(ctx = RFC 9380 K.2 256-byte DST, msg='abc', SHA-256) -> %s (DST replaced by SHA-256(\"H2C-OVERSIZE-DST-\"||ctx) in b_0 and every b_i)" % ec.ristretto_hash_to_group(b"abc", K2_DST, "sha256").hex(),
     ]
     cov = {"evaluations": total, "distinct_nontrivial": nontrivial, "rule": RULE, "exhaustive": True,
-           "edwards_encodings": len(E), "ristretto_encodings": len(R), "scalars": len(S), "scalars64": len(plan["S64"]),
+           "edwards_encodings": len(E), "ristretto_encodings": len(R), "scalars": len(S), "base_only_scalars": len(plan["SB"]), "scalars64": len(plan["S64"]),
            "addsub_columns": len(plan["ecols"]), "ristretto_addsub_columns": len(plan["rcols"]),
            "uniform32_inputs": len(plan["U32"]), "uniform64_inputs": len(plan["U64"]),
            "contexts": len(plan["ctxs"]), "messages": len(plan["msgs"]), "h2c_cases_per_variant": 4 * 2 * len(plan["ctxs"]) * len(plan["msgs"]),
